@@ -34,11 +34,11 @@ def _provider(S_):
 
 
 def others_unchanged(S_, store, key):
-    """Whole-view postcondition: every other thread's entry is untouched."""
-    k = z3.Const("k!tl", Val)
+    """Whole-view postcondition: every other thread's entry is untouched (quantifier-free: the new maps are
+    the old maps updated at `key` only)."""
     return And(
-        z3.ForAll([k], Implies(k != key, And(S_.new.dhas(store, k) == S_.old.dhas(store, k),
-                                             S_.new.dget(store, k) == S_.old.dget(store, k)))))
+        S_.new.dhas_arr(store) == z3.Store(S_.old.dhas_arr(store), key, S_.new.dhas(store, key)),
+        S_.new.dval_arr(store) == z3.Store(S_.old.dval_arr(store), key, S_.new.dget(store, key)))
 
 
 # ---------------------------------------------------------------- ThreadLocal.__init__
@@ -59,6 +59,13 @@ c.result = BOOL
 c.ens("set-iff-own-entry", lambda S_: bv(S_.result) == S_.old.dhas(tl_store(S_.old, S_.a.self), IDENT))
 c.modifies = lambda S_: []
 
+def _provider_may_raise(S_):
+    if S_.at_call and str(z3.simplify(S_.a.self)) in S_.I.st.ghost.get("provider_specs", {}):
+        return z3.BoolVal(False)      # the registered provider (lambda: deque()) is total
+    return Not(And(S_.old.dhas(tl_store(S_.old, S_.a.self), IDENT),
+                   Not(Val.is_VNone(S_.old.dget(tl_store(S_.old, S_.a.self), IDENT)))))
+
+
 # ---------------------------------------------------------------- ThreadLocal.get
 c = contract(TL, "ThreadLocal.get", ["C15", "C01"])
 c.param("self", OBJ("ThreadLocal"))
@@ -70,7 +77,12 @@ c.logged = "ThreadLocal.get"
 def _get_post(S_):
     st = tl_store(S_.old, S_.a.self)
     had = And(S_.old.dhas(st, IDENT), Not(Val.is_VNone(S_.old.dget(st, IDENT))))
-    return And(Implies(had, And(S_.result == S_.old.dget(st, IDENT),
+    extra = z3.BoolVal(True)
+    if S_.at_call:
+        ps = S_.I.st.ghost.get("provider_specs", {}).get(str(z3.simplify(S_.a.self)))
+        if ps is not None:
+            extra = Implies(Not(had), ps(S_, S_.result))
+    return And(extra, Implies(had, And(S_.result == S_.old.dget(st, IDENT),
                                 S_.new.dhas_arr(st) == S_.old.dhas_arr(st), S_.new.dval_arr(st) == S_.old.dval_arr(st))),
                Implies(Not(had), And(S_.new.dhas(st, IDENT), S_.new.dget(st, IDENT) == S_.result,
                                      others_unchanged(S_, st, IDENT))))
@@ -78,7 +90,8 @@ def _get_post(S_):
 
 c.ens("own-entry-or-default", _get_post)
 c.modifies = lambda S_: [("dict", tl_store(S_.old, S_.a.self))]
-c.sig("BaseException", "default-provider-raised")
+c.sig("BaseException", "default-provider-raised",
+      cond=lambda S_: _provider_may_raise(S_))
 
 # ---------------------------------------------------------------- ThreadLocal.value (getter) / set / clear
 c = contract(TL, "ThreadLocal.set", ["C15"])
@@ -95,3 +108,47 @@ c.result = NONE
 c.ens("own-entry-removed", lambda S_: And(Not(S_.new.dhas(tl_store(S_.old, S_.a.self), IDENT)),
                                           others_unchanged(S_, tl_store(S_.old, S_.a.self), IDENT)))
 c.modifies = lambda S_: [("dict", tl_store(S_.old, S_.a.self))]
+
+
+# =============================================================================== CallbackContext
+@class_invariant("CallbackContext")
+def inv_callback_context(S_, cb):
+    h = S_.new
+    fn = h.f(cb, "CallbackContext.__function_name")
+    return And(Val.is_VStr(h.f(cb, "CallbackContext.__event")), Val.is_VStr(h.f(cb, "CallbackContext.__filename")),
+               Or(Val.is_VStr(fn), Val.is_VNone(fn)),
+               S_.pre(h.f(cb, "CallbackContext.__callbacks"), "list"),
+               h.llen(h.f(cb, "CallbackContext.__callbacks")) >= 0)
+
+
+def ev_in(event, names):
+    return Or(*[event == VStr(n) for n in names])
+
+
+def spec_cb_matches(h, cb, event, file, fname):
+    """What the code can decide from what a CallbackContext records (file, function, opening event)."""
+    opened_by_line = h.f(cb, "CallbackContext.__event") == VStr("line")
+    return And(file == h.f(cb, "CallbackContext.__filename"), fname == h.f(cb, "CallbackContext.__function_name"),
+               Or(opened_by_line, ev_in(event, ["exception", "return"])))
+
+
+c = contract(CB, "CallbackContext.at_location", ["C15"])
+c.param("self", OBJ("CallbackContext")).param("event", STR).param("file", STR).param("line", INT)
+c.param("function_name", OPT(STR)).param("frame", FRAME())
+c.req("only-line-return-exception", lambda S_: ev_in(S_.a.event, ["line", "return", "exception"]))
+c.result = BOOL
+c.ens("file-function-event-table", lambda S_: bv(S_.result) == spec_cb_matches(
+    S_.old, S_.a.self, S_.a.event, S_.a.file, S_.a.function_name))
+# statement: "not after the function invocation that opened it has returned", "under recursion":
+# the context must only match events of the very invocation (frame) that opened it ($frame is a ghost field)
+c.ens("same-invocation", lambda S_: Implies(bv(S_.result), S_.a.frame == S_.old.f(S_.a.self, "$frame")))
+c.modifies = lambda S_: []
+
+# CallbackContext.process: runs the deferred callbacks (host plugins may fail inside: see C20)
+c = contract(CB, "CallbackContext.process", [])
+c.param("self", OBJ("CallbackContext")).param("ctx", VAL).param("event", STR).param("frame", FRAME()).param("arg", ANY)
+c.result = VAL
+c.logged = "CallbackContext.process"
+c.modifies = lambda S_: [("all",)]
+c.sig("BaseException", "a-callback-failed")
+c.coarse = True
